@@ -1035,6 +1035,7 @@ func (*writerIndex).getLastOffset
     flags locks
     requires[locks] held(&ix.mu) == 0
     requires len(ix.items) > 0
+    ensures[struct_last] ret0 == ix.items[len(ix.items)-1].Offset
 func (*writerIndex).append
     flags locks only_locks only_struct noframe
     requires[locks] held(&ix.mu) == 0
@@ -1137,6 +1138,12 @@ func (*writer).Delete
     requires[sync_ok] wOK(w)
     requires[struct_ok] wrS(w) && rs != nil && len(rs.DeletedMessages) > 0
                         && (forall o int64 :: has(rs.SurviveOffsets, o) ==> w.segment.Offset <= o && o < w.index.nextOffset)
+    // the rewrite result partitions the head's index: deleted and surviving offsets are disjoint, the deleted ones
+    // are reported in offset order below NextOffset, and the newest indexed offset is one or the other
+    requires[struct_cover] (forall j :: 0 <= j && j < len(rs.DeletedMessages) ==> !has(rs.SurviveOffsets, rs.DeletedMessages[j].Offset)
+                                && rs.DeletedMessages[j].Offset <= rs.DeletedMessages[len(rs.DeletedMessages)-1].Offset && rs.DeletedMessages[j].Offset < w.index.nextOffset)
+                        && (len(w.index.items) > 0 ==> has(rs.SurviveOffsets, w.index.items[len(w.index.items)-1].Offset)
+                                || (exists j :: 0 <= j && j < len(rs.DeletedMessages) && rs.DeletedMessages[j].Offset == w.index.items[len(w.index.items)-1].Offset))
     assigns fPath, fsDirty, fsExists, fsContent, dirDirty, reader.index, reader.messages
     // C01/C12 structure: a new head writer; when the tail was deleted the surviving part becomes an
     // ordinary (non-head) reader below it
@@ -1147,6 +1154,7 @@ func (*writer).Delete
     // C02: whenever the newest message is deleted the new empty head is named after NextOffset, so the
     // offset is not handed out again (also after a reopen)
     ensures[struct_newhead] ret2 == nil && (ret1 != nil || len(rs.SurviveOffsets) == 0) ==> ret0.segment.Offset == old(w.index.nextOffset)
+    ensures[struct_newest]  ret2 == nil && !has(rs.SurviveOffsets, old(w.index.nextOffset) - 1) ==> ret0.segment.Offset == old(w.index.nextOffset)
     // C17: the handle keeps the configured version for segments it creates later
     ensures[version_kept]   ret2 == nil ==> ret0.version == old(w.version) && (ret1 != nil ==> ret1.version == old(w.version))
     assert[order_replace_first] distinct4(rs.Log, rs.Index, nseg.Log, nseg.Index) ==> fsExists[nseg.Log] && fsExists[nseg.Index] at call (Segment).Remove 4
@@ -1212,6 +1220,10 @@ func (*log).delete
     // ASSUMED (content part of INV, not proved here): the offsets stored in a segment file lie between
     // its base and the next segment's base (NextOffset for the head)
     assume[struct_range_head] (forall o int64 :: has(rs.SurviveOffsets, o) ==> l.writer.segment.Offset <= o && o < l.writer.index.nextOffset) at call (*writer).Delete 1
+    assume[struct_cover_head] (forall j :: 0 <= j && j < len(rs.DeletedMessages) ==> !has(rs.SurviveOffsets, rs.DeletedMessages[j].Offset)
+                                   && rs.DeletedMessages[j].Offset <= rs.DeletedMessages[len(rs.DeletedMessages)-1].Offset && rs.DeletedMessages[j].Offset < l.writer.index.nextOffset)
+                              && (len(l.writer.index.items) > 0 ==> has(rs.SurviveOffsets, l.writer.index.items[len(l.writer.index.items)-1].Offset)
+                                   || (exists j :: 0 <= j && j < len(rs.DeletedMessages) && rs.DeletedMessages[j].Offset == l.writer.index.items[len(l.writer.index.items)-1].Offset)) at call (*writer).Delete 1
     assume[struct_range_reader] (forall o int64 :: has(rs.SurviveOffsets, o) ==> rdr.segment.Offset <= o
                                    && (forall j :: 0 <= j && j < len(l.readers) && l.readers[j].segment.Offset > rdr.segment.Offset ==> o < l.readers[j].segment.Offset)) at call (*reader).Delete 1
     requires[locks] held(&l.deleteMu) == 2 && held(&l.writerMu) == 0 && held(&l.readersMu) == 0 && rdLocksFree() && ixLocksFree()
